@@ -8,7 +8,6 @@ import (
 	"context"
 	"fmt"
 	"strconv"
-	"strings"
 
 	"wa-lang.org/wa/internal/lsp/jsonrpc2"
 	"wa-lang.org/wa/internal/lsp/protocol"
@@ -37,10 +36,6 @@ func (s *LSPServer) DidClose(ctx context.Context, params *protocol.DidCloseTextD
 
 func (p *LSPServer) DidChange(ctx context.Context, params *protocol.DidChangeTextDocumentParams) error {
 	p.logger.Println("DidChange:", jsonMarshal(params))
-
-	if !strings.HasSuffix(string(params.TextDocument.URI), ".wa") {
-		return nil
-	}
 
 	text, err := p.changedText(params.TextDocument.URI, params.ContentChanges)
 	if err != nil {
